@@ -15,6 +15,7 @@ import (
 	"verif/internal/kf"
 	m "verif/internal/model"
 	"verif/internal/oracle"
+	"verif/internal/stats"
 	"verif/internal/value"
 )
 
@@ -23,6 +24,13 @@ import (
 // either answers the upgrade request with a plain, empty 200 response and the
 // generated client reports a decoding error instead of an empty stream.
 const EmptyStreamFinding = "C03-empty-result-stream-never-upgraded"
+
+// ViewLostFinding: over HTTP the view selected with SetView travels in the
+// goa-view header of the upgrade response, which the generated server only
+// adds when the upgrade happens inside Send. A bidirectional method that
+// receives before it sends upgrades inside Recv: the client never learns the
+// view, assumes "default" and validates (or projects) the results with it.
+const ViewLostFinding = "C03-bidirectional-stream-view-lost-when-service-receives-first"
 
 // Case is one scripted streaming call.
 type Case struct {
@@ -151,6 +159,11 @@ func GenFaulty(d *m.Design, s *m.Service, meth *m.Method, transport string, maxO
 		if meth.Streaming != "payload" && meth.ResultView == "" {
 			if vs := oracle.ResultViews(d, meth.Result); len(vs) > 0 {
 				c.Spec.View = rapid.SampledFrom(vs).Draw(t, "view")
+				if transport != "grpc" && len(script) > 0 && script[0] == 'c' && c.Spec.View != "default" && kf.Open(ViewLostFinding) {
+					// steered away from the open finding
+					stats.Excluded(ViewLostFinding)
+					c.Spec.View = "default"
+				}
 			}
 		}
 		return c
@@ -241,6 +254,16 @@ func Common(c *Case, obs *harness.Obs) string {
 // lost decides what a missing message is: a violation when the sender's log
 // shows the message went out, an infrastructure timeout otherwise.
 func lost(dir string, i int, sender, receiver *harness.StreamObs) string {
+	// the sender stopped before this message because a message of the OTHER
+	// direction failed at its end: that failure is the other direction's
+	// subject (C02 and C03 split the two directions), not a loss in this one
+	if sender != nil && !has(sender, fmt.Sprintf("send:%d:ok", i)) {
+		for _, l := range sender.Log {
+			if strings.HasPrefix(l, "recv:") && (strings.Contains(l, ":err:") || strings.HasSuffix(l, ":eof")) {
+				return "SKIP the " + dir + " direction stopped at message " + fmt.Sprint(i) + " because the other direction failed first: " + l
+			}
+		}
+	}
 	if receiver != nil {
 		pre := fmt.Sprintf("recv:%d:err:", i)
 		for _, l := range receiver.Log {
@@ -452,3 +475,7 @@ func Rejected(d *m.Design, meth *m.Method, c *Case, obs *harness.Obs) (msg strin
 	}
 	return fmt.Sprintf("the service never tried to receive message %d\n  client: %s\n  server: %s", j, logOf(cli), logOf(srv)), false
 }
+
+// Skipped reports whether a judge's message only says that its direction
+// could not be judged because the other direction failed first.
+func Skipped(msg string) bool { return strings.HasPrefix(msg, "SKIP") }
